@@ -2,6 +2,7 @@ package props
 
 import (
 	"fmt"
+	"reflect"
 	"regexp"
 	"strings"
 	"testing"
@@ -107,11 +108,10 @@ func sortStrings(s []string) {
 	}
 }
 
-var cfgLine = regexp.MustCompile(`^info string\s*\d+\s*:\s*(\w+)\s+\S+\s*=\s*(.*)$`)
-
-// printConfig asks the engine for its configuration print-out and parses it.
+// printConfig synchronises with the protocol loop (the engine's own configuration print-out plus
+// isready/readyok) and then reads the engine's configuration: every field of the search and evaluation
+// settings, by reflection, so that the observation does not depend on the format of the print-out.
 func printConfig(u *hx.UciSession) (map[string]string, *hx.Failure) {
-	before := len(u.Lines())
 	marker := u.Count("readyok")
 	u.Send("setoption name Print Config")
 	u.Send("isready")
@@ -119,9 +119,9 @@ func printConfig(u *hx.UciSession) (map[string]string, *hx.Failure) {
 		return nil, hx.Failf("C12/isready/no-readyok", "no readyok after 'setoption name Print Config; isready'")
 	}
 	cfg := map[string]string{}
-	for _, l := range u.Lines()[before:] {
-		if m := cfgLine.FindStringSubmatch(l.Text); m != nil {
-			cfg[m[1]] = strings.TrimSpace(m[2])
+	for _, v := range []reflect.Value{reflect.ValueOf(config.Settings.Search), reflect.ValueOf(config.Settings.Eval)} {
+		for i := 0; i < v.NumField(); i++ {
+			cfg[v.Type().Field(i).Name] = fmt.Sprint(v.Field(i).Interface())
 		}
 	}
 	return cfg, nil
@@ -230,7 +230,7 @@ func propC12(c uciCase, o *hx.Obs) *hx.Failure {
 			if field != "" {
 				want := st.Value
 				if after[field] != want {
-					return fail(hx.Failf("C12/setoption/not-applied", "step %d: '%s': configuration print-out shows %s = %s", i, line, field, after[field]))
+					return fail(hx.Failf("C12/setoption/not-applied", "step %d: '%s': the configuration has %s = %s", i, line, field, after[field]))
 				}
 			}
 			o.Label("setoption:" + st.Name)
